@@ -1,5 +1,4 @@
-import GodiProofs.Middleware.Refine
-import GodiProofs.Middleware.SpecProps
+import GodiProofs.Middleware.Seq
 /-!
 # C16 — web middleware: one scope per request, visible to handlers, always closed
 
@@ -13,6 +12,8 @@ Every theorem below is about `Godi.Mw.integrations` = the five integrations whos
 * `rq.down`, `rq.outcome`   plain handler or `Handle(method, WithPanicRecovery(b))` (with or without a
                             resolution failure); handler returns / fails / panics
 * `rq.closeErr`             `scope.Close()` reports an error
+* `rq.outer`                the incoming request context already carries somebody else's scope
+                            (`rq.WF`: considered for requests that pass the scope middleware)
 * `base`                    the identity the provider gives to the next scope
 
 so "every exit path" (normal return, middleware error at position i, handler error, handler panic,
@@ -28,24 +29,14 @@ scopes is C02; here: no two requests ever see the same scope.
 namespace Godi.Props.C16
 open Godi.Mw
 
-/-- the integration also publishes the scope through the framework's locals -/
-def usesLocals (I : Integration) : Bool := decide (Stmt.attachLocals ∈ I.mw)
-
-theorem usesLocals_style : ∀ I ∈ integrations, usesLocals I = decide (styleOf I = .inline) := by decide
-
-/-- the trace of any request against any of the five integrations is the specified one -/
-theorem trace_eq {I : Integration} (hI : I ∈ integrations) (rq : Req) (base : Sid) :
-    I.trace rq base = specTrace (styleOf I) rq base :=
-  (all_refine I hI rq base [] (by simp)).1
-
 /-- **Exactly one scope per request.** A request that passes the scope middleware makes exactly one
 `CreateScope` call; when it succeeds exactly one scope — the fresh one — exists for the request,
 otherwise none. -/
-theorem C16_one_scope : ∀ I ∈ integrations, ∀ (rq : Req) (base : Sid),
+theorem C16_one_scope : ∀ I ∈ integrations, ∀ (rq : Req), rq.WF → ∀ (base : Sid),
     createAttempts (I.trace rq base) = (if rq.installed then 1 else 0) ∧
     createdScopes (I.trace rq base) = (if created rq then [base] else []) := by
-  intro I hI rq base
-  rw [trace_eq hI]
+  intro I hI rq hw base
+  rw [trace_eq hI rq hw]
   exact ⟨spec_attempts _ rq base, spec_created _ rq base⟩
 
 /-- **That scope is the one everybody sees.** (1) no event of the request mentions any other scope;
@@ -53,12 +44,12 @@ theorem C16_one_scope : ∀ I ∈ integrations, ∀ (rq : Req) (base : Sid),
 (and in the locals where the integration uses them), the plain handler finds it in the context, and
 `Handle` looks up / resolves from / calls the method with exactly it — all while it is still open;
 (3) the configured middlewares run in configuration order `0, 1, …`, stopping after the failing one. -/
-theorem C16_same_scope_everywhere : ∀ I ∈ integrations, ∀ (rq : Req) (base : Sid),
+theorem C16_same_scope_everywhere : ∀ I ∈ integrations, ∀ (rq : Req), rq.WF → ∀ (base : Sid),
     (∀ e ∈ I.trace rq base, ∀ x ∈ e.seen, x = base) ∧
     (created rq = true → ∀ e ∈ I.trace rq base, e.seesFully (usesLocals I) base = true) ∧
     mwIndices (I.trace rq base) = (if created rq then List.range (ranCount rq) else []) := by
-  intro I hI rq base
-  rw [trace_eq hI, usesLocals_style I hI]
+  intro I hI rq hw base
+  rw [trace_eq hI rq hw, usesLocals_style I hI]
   refine ⟨?_, ?_, spec_mw_order _ rq base⟩
   · have h := spec_seen (styleOf I) rq base
     simp only [List.all_eq_true, beq_iff_eq] at h
@@ -72,22 +63,22 @@ theorem C16_same_scope_everywhere : ∀ I ∈ integrations, ∀ (rq : Req) (base
 request's scope has been closed exactly once (and nothing else has been closed), whatever the
 request does; and no middleware, handler, `Handle` lookup/resolution or controller method uses the
 scope after the event that closed it. -/
-theorem C16_closed_once : ∀ I ∈ integrations, ∀ (rq : Req) (base : Sid),
+theorem C16_closed_once : ∀ I ∈ integrations, ∀ (rq : Req), rq.WF → ∀ (base : Sid),
     (∀ x, closes (I.trace rq base) x = (if created rq ∧ base = x then 1 else 0)) ∧
     noUseAfterClose (I.trace rq base) [] = true := by
-  intro I hI rq base
-  rw [trace_eq hI]
+  intro I hI rq hw base
+  rw [trace_eq hI rq hw]
   exact ⟨fun x => spec_closes _ rq base x, spec_noUse _ rq base⟩
 
 /-- **Error handler instead of the handler.** If the scope cannot be created (failure or closed
 provider) or a configured middleware fails, the error handler runs exactly once and the routed
 handler does not run at all; otherwise the error handler does not run and the handler runs exactly
 once. (`reaches rq = !installed || (create = ok && no middleware fails)`.) -/
-theorem C16_error_handler_instead : ∀ I ∈ integrations, ∀ (rq : Req) (base : Sid),
+theorem C16_error_handler_instead : ∀ I ∈ integrations, ∀ (rq : Req), rq.WF → ∀ (base : Sid),
     errorHandlerRuns (I.trace rq base) = (if rq.installed && !reaches rq then 1 else 0) ∧
     downRuns (I.trace rq base) = (if reaches rq then 1 else 0) := by
-  intro I hI rq base
-  rw [trace_eq hI]
+  intro I hI rq hw base
+  rw [trace_eq hI rq hw]
   exact ⟨spec_eh _ rq base, spec_down _ rq base⟩
 
 /-- **Handle: resolve first, then call; otherwise exactly one error handler.** The controller
@@ -95,7 +86,7 @@ method is only called with a controller resolved earlier in the same request (fr
 scope, by `C16_same_scope_everywhere`); whenever the `Handle` wrapper runs exactly one of
 {method called, scope-error handler, resolution-error handler} happens: the scope-error handler iff
 there is no scope middleware, the resolution-error handler iff resolution fails. -/
-theorem C16_handle_order : ∀ I ∈ integrations, ∀ (rq : Req) (base : Sid),
+theorem C16_handle_order : ∀ I ∈ integrations, ∀ (rq : Req), rq.WF → ∀ (base : Sid),
     methodAfterResolve (I.trace rq base) [] = true ∧
     methodCalls (I.trace rq base) = (if invoked rq && rq.down ≠ .plain then 1 else 0) ∧
     scopeErrs (I.trace rq base) = (if !rq.installed && rq.down ≠ .plain then 1 else 0) ∧
@@ -104,8 +95,8 @@ theorem C16_handle_order : ∀ I ∈ integrations, ∀ (rq : Req) (base : Sid),
     (rq.down ≠ .plain →
       methodCalls (I.trace rq base) + scopeErrs (I.trace rq base) + resolutionErrs (I.trace rq base)
         = (if reaches rq then 1 else 0)) := by
-  intro I hI rq base
-  rw [trace_eq hI]
+  intro I hI rq hw base
+  rw [trace_eq hI rq hw]
   refine ⟨spec_methodAfter _ rq base, spec_method _ rq base, spec_seh _ rq base, spec_reh _ rq base, ?_⟩
   intro hd
   rw [spec_method, spec_seh, spec_reh]
@@ -118,109 +109,33 @@ theorem C16_handle_order : ∀ I ∈ integrations, ∀ (rq : Req) (base : Sid),
 by the panic handler exactly when `WithPanicRecovery(true)`; otherwise (and for plain handlers) it
 leaves the stack — after the scope has been closed (`C16_closed_once` holds on that path too). No
 panic appears out of nowhere. -/
-theorem C16_recover_iff_enabled : ∀ I ∈ integrations, ∀ (rq : Req) (base : Sid),
+theorem C16_recover_iff_enabled : ∀ I ∈ integrations, ∀ (rq : Req), rq.WF → ∀ (base : Sid),
     panicsOut (I.trace rq base) = (if panicEscapes rq then 1 else 0) ∧
     panicHandlers (I.trace rq base) = (if panicRecovered rq then 1 else 0) := by
-  intro I hI rq base
-  rw [trace_eq hI]
+  intro I hI rq hw base
+  rw [trace_eq hI rq hw]
   exact ⟨spec_pout _ rq base, spec_ph _ rq base⟩
 
 /-- the extracted programs never dereference the nil `scope` variable and contain no statement the
 extractor did not recognise (on any path) -/
-theorem C16_no_nil_no_unknown : ∀ I ∈ integrations, ∀ (rq : Req) (base : Sid),
+theorem C16_no_nil_no_unknown : ∀ I ∈ integrations, ∀ (rq : Req), rq.WF → ∀ (base : Sid),
     (I.trace rq base).countP Ev.isBad = 0 := by
-  intro I hI rq base
-  rw [trace_eq hI]
+  intro I hI rq hw base
+  rw [trace_eq hI rq hw]
   exact spec_bad _ rq base
 
 /-! ## request sequences and concurrent batches -/
-
-def SysOk (sys : Sys) : Prop := ∀ x ∈ sys.closed, x < sys.nextSid
-
-theorem step_spec {I : Integration} (hI : I ∈ integrations) (sys : Sys) (hs : SysOk sys) (rq : Req) :
-    (I.step sys rq).2 = specTrace (styleOf I) rq sys.nextSid ∧
-    SysOk (I.step sys rq).1 ∧ sys.nextSid ≤ (I.step sys rq).1.nextSid := by
-  have hb : sys.nextSid ∉ sys.closed := fun h => Nat.lt_irrefl _ (hs _ h)
-  obtain ⟨h1, h2, h3⟩ := all_refine I hI rq sys.nextSid sys.closed hb
-  refine ⟨h1, ?_, ?_⟩
-  · intro x hx
-    simp only [Integration.step] at hx ⊢
-    rw [h3] at hx
-    rw [h2]
-    cases hc : created rq
-    · simp only [hc, Bool.false_eq_true, if_false] at hx ⊢
-      exact hs x hx
-    · simp only [hc, if_true, List.mem_cons] at hx ⊢
-      rcases hx with rfl | hx
-      · exact Nat.lt_succ_self _
-      · exact Nat.lt_succ_of_lt (hs x hx)
-  · simp only [Integration.step]; rw [h2]; split
-    · exact Nat.le_succ _
-    · exact Nat.le_refl _
-
-theorem seq_aux {I : Integration} (hI : I ∈ integrations) : ∀ (rqs : List Req) (sys : Sys), SysOk sys →
-    (I.runSeq sys rqs).length = rqs.length ∧
-    ((I.runSeq sys rqs).flatMap createdScopes).Pairwise (· < ·) ∧
-    (∀ x ∈ (I.runSeq sys rqs).flatMap createdScopes, sys.nextSid ≤ x) ∧
-    (∀ t ∈ I.runSeq sys rqs, ∀ e ∈ t, ∀ x ∈ e.seen, createdScopes t = [x] ∧ closes t x = 1)
-  | [], _, _ => by simp [Integration.runSeq]
-  | rq :: rqs, sys, hs => by
-    obtain ⟨h1, h2, h3⟩ := step_spec hI sys hs rq
-    obtain ⟨l, p, lo, own⟩ := seq_aux hI rqs (I.step sys rq).1 h2
-    have hcr : createdScopes (I.step sys rq).2 = if created rq then [sys.nextSid] else [] := by
-      rw [h1]; exact spec_created _ rq _
-    have hnext : created rq = true → sys.nextSid < (I.step sys rq).1.nextSid := by
-      intro hc
-      have := (all_refine I hI rq sys.nextSid sys.closed (fun h => Nat.lt_irrefl _ (hs _ h))).2.1
-      simp only [Integration.step]; rw [this, hc]; simp
-    refine ⟨by rw [Integration.runSeq, List.length_cons, l, List.length_cons], ?_, ?_, ?_⟩
-    · simp only [Integration.runSeq, List.flatMap_cons, List.pairwise_append]
-      refine ⟨?_, p, ?_⟩
-      · rw [hcr]; split <;> simp
-      · intro a ha b hb
-        rw [hcr] at ha
-        cases hc : created rq
-        · simp [hc] at ha
-        · simp only [hc, if_true, List.mem_singleton] at ha
-          subst ha
-          exact Nat.lt_of_lt_of_le (hnext hc) (lo b hb)
-    · intro x hx
-      simp only [Integration.runSeq, List.flatMap_cons, List.mem_append] at hx
-      rcases hx with hx | hx
-      · rw [hcr] at hx
-        cases hc : created rq
-        · simp [hc] at hx
-        · simp only [hc, if_true, List.mem_singleton] at hx; rw [hx]; exact Nat.le_refl _
-      · exact Nat.le_trans h3 (lo x hx)
-    · intro t ht e he x hx
-      simp only [Integration.runSeq, List.mem_cons] at ht
-      rcases ht with rfl | ht
-      · have hseen := spec_seen (styleOf I) rq sys.nextSid
-        simp only [List.all_eq_true, beq_iff_eq] at hseen
-        rw [h1] at he ⊢
-        have hxe : x = sys.nextSid := hseen e he x hx
-        subst hxe
-        -- a scope is mentioned only if it was created
-        have hc : created rq = true := by
-          cases hc : created rq
-          · have hu := spec_unseen (styleOf I) rq sys.nextSid hc
-            simp only [List.all_eq_true, List.isEmpty_iff] at hu
-            rw [hu e he] at hx
-            cases hx
-          · rfl
-        exact ⟨by rw [spec_created, hc]; rfl, by rw [spec_closes, hc]; simp⟩
-      · exact own t ht e he x hx
 
 /-- **Request sequences.** For ANY list of requests served one after the other on the same
 provider: every request has its own trace; the scopes created are pairwise distinct (a request never
 gets a scope an earlier one had); whatever scope any event of a request mentions is the scope
 created in that very request, and it is closed exactly once within that request. -/
-theorem C16_sequences : ∀ I ∈ integrations, ∀ (rqs : List Req),
+theorem C16_sequences : ∀ I ∈ integrations, ∀ (rqs : List Req), (∀ rq ∈ rqs, rq.WF) →
     (I.runSeq {} rqs).length = rqs.length ∧
     ((I.runSeq {} rqs).flatMap createdScopes).Pairwise (· < ·) ∧
     (∀ t ∈ I.runSeq {} rqs, ∀ e ∈ t, ∀ x ∈ e.seen, createdScopes t = [x] ∧ closes t x = 1) := by
-  intro I hI rqs
-  obtain ⟨a, b, _, d⟩ := seq_aux hI rqs {} (by intro x hx; cases hx)
+  intro I hI rqs hw
+  obtain ⟨a, b, _, d⟩ := seq_aux hI rqs {} (by intro x hx; cases hx) hw
   exact ⟨a, b, d⟩
 
 /-- **Concurrent batches.** The per-request function shares nothing with other requests but the
@@ -228,11 +143,11 @@ provider (the extractor rejects any state declared outside it), so an interleavi
 which identity `CreateScope` hands to which request. For ANY injective assignment `alloc` of scope
 identities to the requests of a batch, no scope mentioned by one request is mentioned by another. -/
 theorem C16_concurrent_disjoint : ∀ I ∈ integrations, ∀ (n : Nat) (rq : Fin n → Req) (alloc : Fin n → Sid),
-    Function.Injective alloc →
+    Function.Injective alloc → (∀ i, (rq i).WF) →
     ∀ i j, i ≠ j → ∀ e ∈ I.trace (rq i) (alloc i), ∀ e' ∈ I.trace (rq j) (alloc j), ∀ x ∈ e.seen, x ∉ e'.seen := by
-  intro I hI n rq alloc hinj i j hij e he e' he' x hx hx'
-  have h1 := (C16_same_scope_everywhere I hI (rq i) (alloc i)).1 e he x hx
-  have h2 := (C16_same_scope_everywhere I hI (rq j) (alloc j)).1 e' he' x hx'
+  intro I hI n rq alloc hinj hw i j hij e he e' he' x hx hx'
+  have h1 := (C16_same_scope_everywhere I hI (rq i) (hw i) (alloc i)).1 e he x hx
+  have h2 := (C16_same_scope_everywhere I hI (rq j) (hw j) (alloc j)).1 e' he' x hx'
   exact hij (hinj (h1.symm.trans h2))
 
 /-- **Configuration order.** `ScopeMiddleware(provider, opts...)` configures the middlewares in the
@@ -281,6 +196,11 @@ example : fiber.trace { nMw := 1, down := .handle false false, outcome := .panic
 example : http.trace { down := .handle true false, outcome := .panic, closeErr := true } 0 =
     [.scopeCreated 0, .handleScope 0, .handleResolved 0, .methodCalled (some 0) true, .panicHandler,
      .scopeClosed 0, .closeErrHandlerRan] := by decide
+
+/-- a request whose context already carries scope 5 still gets its own fresh scope 9, and that is
+what everybody sees -/
+example : http.trace { nMw := 1, outer := some 5 } 9 =
+    [.scopeCreated 9, .mwRan 0 (some 9) (some 9) none, .handlerRan (some 9) none true, .scopeClosed 9] := by decide
 
 example : echo.trace { create := .provClosed, nMw := 3 } 0 = [.createFailed, .errorHandlerRan] := by decide
 
